@@ -164,3 +164,4 @@ Fixpoint render_fstep (x : fstep) : list N :=
              | FR y => 46 :: 46 :: render_fstep y | FCS i g0 a o b g1 lit => scmp_text i g0 a o b g1 lit | FES neg g0 gn i g1 => fes_text neg g0 gn i g1 | FQS g0 d => sfq_text g0 d | FT t => ft_text t end.
 Definition render_fsteps (l : list fstep) : list N := flat_map render_fstep l.
 Definition fchain_path (l : list fstep) : list N := 36 :: render_fsteps l.
+Definition fchain_fun_path (l : list fstep) (fs : list (list N)) : list N := fchain_path l ++ render_funs fs.
